@@ -292,13 +292,13 @@ def odf_contracts(reg):
     append = FnContract(
         target=f"{SHARED}::{helper}",
         params=[(n, maker(layout[n])) for n in hp],
-        ensures=[("parts==old(parts)+odf_text(element)",
+        ensures=[need_loops("children"), ("parts==old(parts)+odf_text(element)",
                   X.robust(lambda c: cat_of(c.st, c.args[a_name]) == cc(cat_of(c.entry, c.args[a_name]),
                                                                         ODF_TEXT(c.args[e_name].t, *cfg(lambda n: c.args[n], c.entry))))),],
         modifies=(a_name,),
         note="modular recursion through this contract; loop invariant over the processed prefix of a child list of symbolic length",
     )
-    append.loop_match = lambda ex, st, node, it: (LoopSpec(inv=inv, label="children")
+    append.loop_match = lambda ex, st, node, it: (matched(ex, LoopSpec(inv=inv, label="children"))
                                                   if isinstance(it, VExt) and it.sort == "Elem" and st.lookup(e_name) is not None
                                                   and it.t.eq(st.lookup(e_name).t) else None)
     return [append, etext]
@@ -452,6 +452,30 @@ BODY_CHILD_CASES = [
 ]
 
 
+def matched(ex, spec):
+    """Record that a loop specification was attached (see need_loops)."""
+    if not hasattr(ex, "matched_labels"):
+        ex.matched_labels = set()
+    ex.matched_labels.add(spec.label)
+    return spec
+
+
+def need_loops(*labels):
+    """First postcondition of a contract whose obligations live in loop specifications found by role: when an expected
+    loop was not recognised in the (restructured) code, the function is OUT-OF-SUBSET (undecided) -- its obligations must
+    not silently disappear."""
+    def clause(c):
+        if getattr(c.ex, "contract", None) is not clause.owner or c.ex.inline_depth > 0 or getattr(c.ex, "in_apply", 0) > 0:
+            return z3.BoolVal(True)            # assumed at a call site: nothing to check there
+        missing = [l for l in labels if l not in getattr(c.ex, "matched_labels", set())]
+        if missing:
+            raise X.Unsupported("loop(s) not recognised: " + ", ".join(missing))
+        return z3.BoolVal(True)
+    clause.owner = None
+    clause.needs_owner = True
+    return ("loops-recognised", clause)
+
+
 def top(lc, name):
     """Value of a parameter of the function under contract, read from its own frame (also from inside a helper executed in place)."""
     v = lc.st.frames[0].env.get(name)
@@ -490,7 +514,8 @@ def docx_contracts():
     process = FnContract(
         target=f"{DOCX}::_process_text_element",
         params=sp.params({"elem": p_elem(), "parts": p_strlist(), "include_formulas": p_bool()}),
-        ensures=[(f"{nm}(parts)==old+dx_{nm}(elem)[{cn}]", post(nm, D, h, g)) for nm, D, h in DX_IMAGES for cn, g in ELEM_CASES],
+        ensures=[need_loops("choice-children", "run-children", "children")]
+                + [(f"{nm}(parts)==old+dx_{nm}(elem)[{cn}]", post(nm, D, h, g)) for nm, D, h in DX_IMAGES for cn, g in ELEM_CASES],
         modifies=(sp.name["parts"],),
     )
 
@@ -501,11 +526,11 @@ def docx_contracts():
         if not (isinstance(it, VExt) and it.sort == "Elem"):
             return None
         if not elem_loop(it, e):
-            return LoopSpec(inv=kids_inv, label="choice-children")
+            return matched(ex, LoopSpec(inv=kids_inv, label="choice-children"))
         if not ex.feasible(st.pc, TAG(e.t) != W_R):
-            return LoopSpec(inv=run_inv, label="run-children")
+            return matched(ex, LoopSpec(inv=run_inv, label="run-children"))
         if not ex.feasible(st.pc, TAG(e.t) == W_R):
-            return LoopSpec(inv=kids_inv, label="children")
+            return matched(ex, LoopSpec(inv=kids_inv, label="children"))
         return None
     process.loop_match = process_loops
     # guards of ELEM_CASES are exhaustive: at call sites the postcondition is assumed unsplit
@@ -523,12 +548,12 @@ def docx_contracts():
     para = FnContract(
         target=f"{DOCX}::_extract_paragraph_content",
         params=sq_.params({"paragraph": p_elem(), "include_formulas": p_bool()}),
-        ensures=[(f"{nm}(result)==dx_{nm}_children(paragraph)",
+        ensures=[need_loops("children")] + [(f"{nm}(result)==dx_{nm}_children(paragraph)",
                   (lambda nm, D, h: X.robust(lambda c: h(c.result.t) == D.all_kids(sq_(c, "paragraph").t, sq_(c, "include_formulas").t)))(nm, D, h))
                  for nm, D, h in DX_IMAGES],
         result_maker=lambda ex, st, ctx: VStr(z3.String(fresh_name("paragraph_text"))),
     )
-    para.loop_match = lambda ex, st, node, it: (LoopSpec(inv=par_inv, label="children")
+    para.loop_match = lambda ex, st, node, it: (matched(ex, LoopSpec(inv=par_inv, label="children"))
                                                 if elem_loop(it, st.frames[0].env.get(sq_.name["paragraph"])) else None)
     # ---- body level --------------------------------------------------------------------------
     def tbl_result(ex, st, ctx):
@@ -571,14 +596,14 @@ def docx_contracts():
 
     body = FnContract(
         target=f"{DOCX}::_extract_full_text_from_body",
-        params=sb.params({"body": p_opt(p_elem()),
+        params=sb.params({"body": Maker(lambda ex, st, name: p_elem().make(ex, st, name) + [(None, NONE)], desc="Optional[Element]"),
                           "include_formulas": Maker(lambda ex, st, name: VBool(z3.Bool(name)), desc="bool", default=lambda ex, st: VBool(True))}),
-        ensures=[("nw(result)==nw-of-blocks-in-order", X.robust(body_post_nw)),
+        ensures=[need_loops("blocks"), ("nw(result)==nw-of-blocks-in-order", X.robust(body_post_nw)),
                  ("sq(result)==blocks-separated-by-whitespace", X.robust(body_post_sq)),
                  ("result-empty-iff-no-visible-text", X.robust(lambda c: (c.result.t == lit("")) == (NW(c.result.t) == lit(""))))],
         result_maker=lambda ex, st, ctx: VStr(z3.String(fresh_name("body_text"))),
     )
-    body.loop_match = lambda ex, st, node, it: (LoopSpec(inv=body_inv, label="blocks")
+    body.loop_match = lambda ex, st, node, it: (matched(ex, LoopSpec(inv=body_inv, label="blocks"))
                                                 if elem_loop(it, st.frames[0].env.get(sb.name["body"])) else None)
     return [process, omml, para, table, body]
 
@@ -699,11 +724,11 @@ def dt_contracts(reg):
                                                                                  "images": p_objseq("PptxImage", IM_AT), "footer": p_str(),
                                                                                  "text": p_str()}).make(ex, st, "self"), desc="PptxSlide")),
                 (sg.name["include_image_captions"], Maker(lambda ex, st, name: VBool(z3.Bool(name)), desc="bool", default=lambda ex, st: VBool(False)))],
-        ensures=[("nw(result)==base+formulas(+captions)", X.robust(gt_nw)), ("sq(result)==base,formulas(,captions)-separated-by-whitespace", X.robust(gt_sq))],
+        ensures=[need_loops("formulas", "images"), ("nw(result)==base+formulas(+captions)", X.robust(gt_nw)), ("sq(result)==base,formulas(,captions)-separated-by-whitespace", X.robust(gt_sq))],
         note="comments, footer and the comment-bearing field `text` do not occur in the specified text",
     )
-    gt.loop_match = lambda ex, st, node, it: (LoopSpec(inv=f_inv, label="formulas") if isinstance(it, VSeq) and it.ekind == "PptxFormula"
-                                              else LoopSpec(inv=i_inv, label="images") if isinstance(it, VSeq) and it.ekind == "PptxImage" else None)
+    gt.loop_match = lambda ex, st, node, it: (matched(ex, LoopSpec(inv=f_inv, label="formulas")) if isinstance(it, VSeq) and it.ekind == "PptxFormula"
+                                              else matched(ex, LoopSpec(inv=i_inv, label="images")) if isinstance(it, VSeq) and it.ekind == "PptxImage" else None)
     out.append(gt)
 
     # ---- DocContent.get_full_text: the documented title line ------------------------------------
@@ -816,8 +841,9 @@ def html_contracts(reg):
         params=sgn.params({"self": p_self, "node": p_hnode(), "include_children": p_flag(True), "include_tail": p_flag(False)}),
         returns=lambda c: VStr(cc(z3.If(sgn(c, "include_children").t, HT(sgn(c, "node").t), H_TEXT(sgn(c, "node").t)),
                                   z3.If(sgn(c, "include_tail").t, H_TAIL(sgn(c, "node").t), lit("")))),
+        ensures=[need_loops("children")],
     )
-    gnt.loop_match = lambda ex, st, node, it: (LoopSpec(inv=gnt_inv, label="children")
+    gnt.loop_match = lambda ex, st, node, it: (matched(ex, LoopSpec(inv=gnt_inv, label="children"))
                                                if children_of(it, st.frames[0].env.get(sgn.name["node"])) else None)
     extract_table = FnContract(target=f"{HTML}::_HtmlTextExtractor._extract_table", params=[("self", p_self), ("table_node", p_hnode())],
                                assumed=True, returns=lambda c: VExt("HtmlTableData", TD_OF(c.args["table_node"].t)),
@@ -838,7 +864,7 @@ def html_contracts(reg):
                            "depth": Maker(lambda ex, st, name: VInt(z3.Int(name)), desc="int", default=lambda ex, st: VInt(0)),
                            "include_tail": p_flag(False)}),
         requires=lambda c: z3.Not(tag_in(H_TAG(spn(c, "node").t), H_REMOVE)),
-        ensures=[("nw(result)==rendered(node)(+tail)",
+        ensures=[need_loops("li-children", "children"), ("nw(result)==rendered(node)(+tail)",
                   X.robust(lambda c: NW(c.result.t) == cc(PN(spn(c, "node").t), z3.If(spn(c, "include_tail").t, NW(H_TAIL(spn(c, "node").t)), lit("")))))],
         result_maker=lambda ex, st, ctx: VStr(z3.String(fresh_name("rendered"))),
         raises=[Raises("Exception", sub=True)],
@@ -851,7 +877,7 @@ def html_contracts(reg):
         if not children_of(it, nv):
             return None
         is_li = not ex.feasible(st.pc, H_TAG(nv.t) != lit("li"))
-        return LoopSpec(inv=pn_inv, label="li-children" if is_li else "children")
+        return matched(ex, LoopSpec(inv=pn_inv, label="li-children" if is_li else "children"))
     pn.loop_match = pn_loops
     return [gnt, extract_table, format_table, pn]
 
@@ -906,7 +932,7 @@ def xls_contracts():
     fmt = FnContract(
         target=f"{XLS}::_format_sheet_as_text",
         params=sx.params({"headers": X.p_strrow(), "rows": X.p_rowseq(ROWS_AT)}),
-        ensures=[("nw(result)==row-major-nw-of-cells", X.robust(post))],
+        ensures=[need_loops("rows", "cells"), ("nw(result)==row-major-nw-of-cells", X.robust(post))],
         raises=[Raises("Exception", sub=True)],
         note="column widths are irrelevant to nw (rjust is whitespace): loops that do not feed a text list (the width pass) are cut with invariant True",
     )
@@ -915,9 +941,9 @@ def xls_contracts():
         if not feeds_text_list(ex, st, node):
             return None
         if row_of(it) is not None:
-            return LoopSpec(inv=inner_inv, label="cells")
+            return matched(ex, LoopSpec(inv=inner_inv, label="cells"))
         if isinstance(it, VSeq) and it.ekind == "StrRow":
-            return LoopSpec(inv=outer_inv, label="rows")
+            return matched(ex, LoopSpec(inv=outer_inv, label="rows"))
         return None
     fmt.loop_match = loops
     return [fmt]
@@ -1020,20 +1046,40 @@ def rtf_contracts():
     isskip = FnContract(target=f"{RTF}::_RtfParser._is_skip_destination", params=[("self", p_self), ("ahead", p_str())], assumed=True,
                         returns=lambda c: VBool(IS_SKIP(c.args["ahead"].t)), note="which control words are destinations is a table (uninterpreted here)")
 
+    def roles():
+        """The walker's state variables, found by what they do, not by name: in the branch guarded by the
+        `_is_skip_destination(...)` test a flag is set to True and the skip depth is set to the group depth; the output
+        lists are the str lists the character loop appends to."""
+        import ast
+        from pyvc import loader
+        fn = loader.module(RTF).functions.get("_RtfParser._strip_rtf_full_with_pages")
+        if fn is None:
+            raise X.Unsupported("walker not found")
+        for n in ast.walk(fn):
+            if isinstance(n, ast.If) and any(isinstance(x, ast.Call) and isinstance(x.func, ast.Attribute) and x.func.attr == "_is_skip_destination"
+                                             for x in ast.walk(n.test)):
+                flag = [x.targets[0].id for x in n.body if isinstance(x, ast.Assign) and isinstance(x.targets[0], ast.Name)
+                        and isinstance(x.value, ast.Constant) and x.value.value is True]
+                dep = [(x.targets[0].id, x.value.id) for x in n.body if isinstance(x, ast.Assign) and isinstance(x.targets[0], ast.Name)
+                       and isinstance(x.value, ast.Name)]
+                if len(flag) == 1 and len(dep) == 1:
+                    return flag[0], dep[0][0], dep[0][1]
+        raise X.Unsupported("walker state variables not recognised")
+
     def vars_(lc):
-        g, on, d = lc["group_depth"], lc["skip_group"], lc["skip_depth"]
+        on_n, d_n, g_n = roles()
+        g, on, d = lc[g_n], lc[on_n], lc[d_n]
         if not (isinstance(g, VInt) and isinstance(on, VBool) and isinstance(d, VInt)):
             raise X.Unsupported("walker state variables not of the expected kinds")
         from pyvc import ops
         return ops.int_term(g), on.t, ops.int_term(d)
 
     def outs(lc):
-        r = []
-        for nm in ("result", "current_page"):
-            v = lc.st.lookup(nm)
-            n_, c_, _l = _sl(lc.st, v)
-            r.append((n_, c_))
-        return r
+        fr = lc.st.frames[0]
+        refs = sorted({v.ref for v in fr.env.values() if _is_strlist(lc.st, v)})
+        if not refs:
+            raise X.Unsupported("output lists not recognised")
+        return [_sl(lc.st, VRef(r))[:2] for r in refs]
 
     def step(a, b):
         g0, on0, d0 = vars_(a)
@@ -1048,14 +1094,23 @@ def rtf_contracts():
                         result_maker=lambda ex, st, ctx: VStr(z3.String(fresh_name("decoded"))), note="\\uN decoding: some string (C04 decides which)")
     spec = LoopSpec(label="characters")
     spec.step = step
+    sw = Sig(RTF, "_RtfParser._strip_rtf_full_with_pages", ["self", "text"])
     walker = FnContract(
         target=f"{RTF}::_RtfParser._strip_rtf_full_with_pages",
-        params=[("self", p_self), ("text", p_str())],
+        params=sw.params({"self": p_self, "text": p_str()}),
+        ensures=[need_loops("characters")],
         raises=[Raises("Exception", sub=True)],
-        modifies=("self",),
-        loops={0: spec},
-        note="names the three state variables of the walker (group_depth, skip_group, skip_depth) and its two output lists",
+        modifies=(sw.name["self"],),
+        note="the three state variables of the walker and its output lists are identified by role (see roles())",
     )
+
+    def walker_loops(ex, st, node, it):
+        import ast
+        if isinstance(node, ast.While) and any(isinstance(x, ast.Call) and isinstance(x.func, ast.Attribute) and x.func.attr == "_is_skip_destination"
+                                               for x in ast.walk(node)):
+            return matched(ex, spec)
+        return None
+    walker.loop_match = walker_loops
     return [isskip, decode, walker]
 
 
@@ -1070,6 +1125,10 @@ def contracts(reg):
     out += xls_contracts()
     out += builder_contracts(reg)
     out += rtf_contracts()
+    for c_ in out:
+        for _l, f_ in c_.ensures:
+            if getattr(f_, "needs_owner", False):
+                f_.owner = c_
     return out
 
 
